@@ -3,11 +3,13 @@ package main
 import (
 	"crypto/tls"
 	"fmt"
+	"net"
 	"strings"
 	"sync"
 	"sync/atomic"
 	"time"
 
+	"github.com/hashicorp/go-hclog"
 	"github.com/jimlambrt/gldap"
 
 	"verif/internal/sber"
@@ -19,12 +21,12 @@ func init() {
 		Rule: "pipelines <k requests> Unbind <m requests> for all k,m in 0..3 (0..8 in thorough) x {whole pipeline in one write (same TCP segment), one write per frame, byte-dribbled} x {no unbind route, unbind route registered, unbind route whose handler panics} x " +
 			"{earlier handlers finished, earlier handlers parked on a harness gate (also 63..300 of them at once), an earlier handler that panicked and was recovered} x Unbind message IDs {555, 0, 1, 99, 2^31-1} x {plain, TLS listener, StartTLS-upgraded}; the requests after the Unbind include every operation kind and a second Unbind. Oracle: the set of dispatched message IDs equals the k earlier ones; " +
 			"the unbind handler ran exactly once when registered; the strictly parsed stream up to EOF contains exactly one response per earlier request and nothing carrying the Unbind's or a later request's message ID; " +
-			"with parked handlers EOF is not seen before the gate opens and is seen after. A second scenario stops the server while an Unbind and its followers sit unread in the connection's buffer behind a held StartTLS (read-loop) handler: no answer to the Unbind, nothing behind it dispatched. distinct_nontrivial = distinct (k, m, write mode, route, parked, transport) combinations",
+			"with parked handlers EOF is not seen before the gate opens and is seen after. A second scenario stops the server while an Unbind and its followers sit unread in the connection's buffer behind a held StartTLS (read-loop) handler: no answer to the Unbind, nothing behind it dispatched. A third stops the server in the window between reading an Unbind and acting on it (the window held open at gldap's own 'packet read' Debug log line through the user-supplied logger; the beginning of the shutdown observed on a second, idle connection): the unbind handler still runs exactly once. A fourth gives one Mux to two servers (plain+plain, plain+TLS) and alternates Unbind-terminated sessions between them: one handler run per session. distinct_nontrivial = distinct (k, m, write mode, route, parked, transport) combinations",
 		Assume: []string{"'dispatched' is observed by recording handlers on every route kind including the default route"},
 		Phases: func(tier string, seed int64) []Phase {
 			return []Phase{{Name: "pipelines", Run: c10Run}}
 		},
-		MinObserved: []string{"pipelines_checked", "requests_after_unbind_sent", "eof_withheld_until_release_observed", "pipelines_after_a_write_fault", "pipelines_with_an_earlier_handler_panic", "unbinds_with_unusual_message_ids", "stops_with_an_unbind_pipeline_in_the_read_buffer", "pipelines_inside_a_starttls_upgraded_session"},
+		MinObserved: []string{"pipelines_checked", "requests_after_unbind_sent", "eof_withheld_until_release_observed", "pipelines_after_a_write_fault", "pipelines_with_an_earlier_handler_panic", "unbinds_with_unusual_message_ids", "stops_with_an_unbind_pipeline_in_the_read_buffer", "stops_between_reading_an_unbind_and_acting_on_it", "unbinds_on_servers_that_share_a_mux", "pipelines_inside_a_starttls_upgraded_session"},
 	})
 }
 
@@ -132,6 +134,171 @@ func c10Run(c *Ctx) {
 	for round := 0; round < c.N(6, 60); round++ {
 		c10StopWithBuffered(c, round)
 	}
+	for round := 0; round < c.N(6, 60); round++ {
+		c10StopAfterTheUnbindWasRead(c, round)
+	}
+	for round := 0; round < c.N(4, 40); round++ {
+		c10SharedMux(c, pki, round)
+	}
+}
+
+// c10StopAfterTheUnbindWasRead: the server is stopped in the window between "the Unbind has been read" and "the
+// Unbind is acted upon". The window is held open through the user-supplied logger (gldap logs "packet read" at Debug
+// level right after reading a packet); that the shutdown has begun is observed on a second, idle connection, which the
+// server closes. The statement makes no exception for a stopping server: an Unbind that was read runs the unbind
+// handler exactly once, gets no answer, and nothing behind it is dispatched.
+func c10StopAfterTheUnbindWasRead(c *Ctx, round int) {
+	sink := &logSink{}
+	gl := newGateLogger(hclog.New(&hclog.LoggerOptions{Name: "sut", Level: hclog.Debug, Output: sink, JSONFormat: true}), "packet read")
+	srvS, err := gldap.NewServer(gldap.WithLogger(gl))
+	if err != nil {
+		c.Inconclusive(err.Error())
+		return
+	}
+	var mu sync.Mutex
+	unbindRuns := 0
+	var dispatched []string
+	m, _ := gldap.NewMux()
+	rec := func(name string) gldap.HandlerFunc {
+		return func(w *gldap.ResponseWriter, req *gldap.Request) {
+			mu.Lock()
+			dispatched = append(dispatched, name)
+			mu.Unlock()
+			replyFor(observe(name, req), w, req)
+		}
+	}
+	m.Bind(rec("bind"))
+	m.Search(rec("search"))
+	m.DefaultRoute(rec("default"))
+	m.Unbind(func(w *gldap.ResponseWriter, req *gldap.Request) {
+		mu.Lock()
+		unbindRuns++
+		mu.Unlock()
+	})
+	srvS.Router(m)
+	addr := fmt.Sprintf("127.0.0.1:%d", freePort())
+	runRet := make(chan error, 1)
+	go func() { runRet <- srvS.Run(addr) }()
+	for dl := time.Now().Add(patience); !srvS.Ready() && time.Now().Before(dl); time.Sleep(200 * time.Microsecond) {
+	}
+	idle, err := net.DialTimeout("tcp", addr, patience)
+	if err != nil {
+		c.Inconclusive("dial: " + err.Error())
+		close(gl.Release)
+		srvS.Stop()
+		return
+	}
+	defer idle.Close()
+	cl, err := dialRaw(addr, nil)
+	if err != nil {
+		c.Inconclusive("dial: " + err.Error())
+		close(gl.Release)
+		srvS.Stop()
+		return
+	}
+	defer cl.Close()
+	buf := sber.Message(int64(7+round), sber.UnbindRequest(), nil).Encode()
+	if round%2 == 1 {
+		buf = append(buf, sber.Message(3, sber.BindRequest(3, []byte("cn=after"), []byte("p")), nil).Encode()...)
+	}
+	cl.Send(buf)
+	select {
+	case <-gl.Reached:
+	case <-time.After(patience):
+		c.Inconclusive("this build does not log 'packet read' at Debug level: the window cannot be held")
+		close(gl.Release)
+		srvS.Stop()
+		return
+	}
+	stopped := make(chan struct{})
+	go func() { srvS.Stop(); close(stopped) }()
+	// the shutdown has begun once the server ends the idle connection
+	idle.SetReadDeadline(time.Now().Add(patience))
+	one := make([]byte, 64)
+	for {
+		if _, err := idle.Read(one); err != nil {
+			if isTimeout(err) {
+				c.Inconclusive("the idle connection was not closed by the stopping server")
+			}
+			break
+		}
+	}
+	close(gl.Release)
+	got := 0
+	for {
+		if _, err := cl.ReadMsg(10 * time.Second); err != nil {
+			break
+		}
+		got++
+	}
+	select {
+	case <-stopped:
+	case <-time.After(patience):
+		c.Inconclusive("Stop did not return (see C11)")
+	}
+	mu.Lock()
+	defer mu.Unlock()
+	det := map[string]any{"round": round, "unbind_handler_runs": unbindRuns, "dispatched": dispatched, "frames_received": got}
+	c.Count("stops_between_reading_an_unbind_and_acting_on_it", 1)
+	if unbindRuns != 1 {
+		c.Violate("the unbind handler did not run exactly once", fmt.Sprintf("an Unbind that had been read when Stop was called: the unbind handler ran %d times", unbindRuns), det)
+	}
+	if len(dispatched) > 0 {
+		c.Violate("a request that followed the Unbind was dispatched to a handler", fmt.Sprintf("Stop between reading the Unbind and acting on it: %v reached handlers", dispatched), det)
+	}
+}
+
+// c10SharedMux: one Mux given to two servers (an ldap and an ldaps listener on the same routes, say). Every
+// connection of either server that sends an Unbind runs the unbind handler exactly once - connection numbers are
+// per server, so the two servers' connections carry the same numbers.
+func c10SharedMux(c *Ctx, pki *PKI, round int) {
+	var runs atomic.Int64
+	m, _ := gldap.NewMux()
+	m.Bind(func(w *gldap.ResponseWriter, req *gldap.Request) {
+		w.Write(req.NewBindResponse(gldap.WithResponseCode(0)))
+	})
+	m.Unbind(func(w *gldap.ResponseWriter, req *gldap.Request) { runs.Add(1) })
+	var srvs []*Srv
+	var ctcs []*tls.Config
+	for i := 0; i < 2; i++ {
+		var stc, ctc *tls.Config
+		if i == 1 && round%2 == 1 {
+			stc, ctc = pki.ServerOnly, pki.ClientPlain
+		}
+		s, err := startSrv(SrvCfg{TLS: stc}, nil)
+		if err != nil {
+			c.Inconclusive("server start: " + err.Error())
+			return
+		}
+		defer s.StopWithin(patience)
+		s.S.Router(m)
+		srvs = append(srvs, s)
+		ctcs = append(ctcs, ctc)
+	}
+	sent := int64(0)
+	for k := 0; k < 3; k++ {
+		for i, s := range srvs {
+			before := s.closeCnt.Load()
+			cl, err := dialRaw(s.Addr, ctcs[i])
+			if err != nil {
+				c.Inconclusive("dial: " + err.Error())
+				return
+			}
+			cl.Send(sber.Message(1, sber.BindRequest(3, []byte("cn=x"), []byte("p")), nil).Encode())
+			cl.ReadMsg(patience)
+			cl.Send(sber.Message(2, sber.UnbindRequest(), nil).Encode())
+			sent++
+			cl.ReadToEOF(patience)
+			cl.Close()
+			s.WaitCloses(before+1, patience)
+			if got := runs.Load(); got != sent {
+				c.Violate("the unbind handler did not run exactly once", fmt.Sprintf("two servers share one mux: after %d sessions that ended with an Unbind (the last one connection %d of server %d) the unbind handler has run %d times", sent, k+1, i+1, got),
+					map[string]any{"round": round, "sessions": sent, "unbind_handler_runs": got})
+				return
+			}
+		}
+	}
+	c.Count("unbinds_on_servers_that_share_a_mux", sent)
 }
 
 // c10StopWithBuffered: the Unbind and the requests behind it are already sitting in the connection's read buffer when
